@@ -23,6 +23,7 @@ SCRIPTS = {
     'rr-joliet-remove': (dict(rock_ridge='1.12', joliet=3), [('file', '/A.;1', 'a', '/a', 5), ('file', '/B.;1', 'b', '/b', 9), ('dir', '/D', 'd', '/d'),
                                                              ('rm_file', '/A.;1', '/a'), ('dir', '/G', 'g', '/g'), ('rm_dir', '/D', '/d'), ('hide', '/B.;1')]),
     'hard-links': (dict(joliet=3), [('file', '/A.;1', None, '/a', 6), ('dir', '/D', None, '/d'), ('link', '/A.;1', '/D/L.;1'), ('file', '/Z.;1', None, '/z', 2)]),
+    'empty-files': (dict(), [('file', '/A.;1', None, None, 0), ('file', '/B.;1', None, None, 0), ('file', '/C.;1', None, None, 5), ('dir', '/D', None, None), ('file', '/D/E.;1', None, None, 0)]),
     'many-files': (dict(), [('file', '/F%03d.;1' % i, None, None, 1) for i in range(60)]),
     'deep-rr': (dict(rock_ridge='1.09'), [('dir', p, p.rsplit('/', 1)[1].lower(), None) for p in DEEP] + [('file', DEEP[-1] + '/X.;1', 'x', None, 3)]),
 }
@@ -416,6 +417,14 @@ class Reopened(Base):
     def observe(self, c, a, out):
         return {'kind': out.kind, 'problems': getattr(a, 'problems', None)}
 
+    # K21 (recorded, not repaired): on an OPENED image every zero-length file (and symlink) shares one placeholder inode, because
+    # the image format records no data location for empty files; rm_file of one empty file therefore removes all of them.
+    @property
+    def known(self):
+        if self.script == 'empty-files':
+            return {'/post:edited-tree-is-old-content-plus-exactly-the-edits': [('K21', lambda a: True, 'rm_file of one empty file on an opened image removes every empty file of the image (they share one placeholder inode after parsing)')]}
+        return {}
+
 
 # ---------------------------------------------------------------------------------------------
 # UDF bridge (C10)
@@ -548,6 +557,86 @@ class MasteredUDF(Base):
             cl['iso9660-side-structurally-valid'] = False
         if u.im.problems or over:
             a.problems = u.im.problems + over
+        return cl
+
+    def observe(self, c, a, out):
+        return {'kind': out.kind, 'problems': getattr(a, 'problems', None)}
+
+
+@contract
+class ReopenedUDF(Base):
+    """C02 + C05 + C10 on UDF bridge images: open what was written, re-master identically, then remove one file and add another on
+    the OPENED image: the next image must again satisfy an independent UDF reader (anchor in the last sector, valid tags) and the
+    independent ISO9660 reader, show old content plus exactly the edits, and have exactly the declared length."""
+    target = S.PC + '.open_fp'
+    script = 'udf-basic'
+    crosscheck = False
+    label = property(lambda self: 'pycdlib.PyCdlib.open_fp<%s>' % self.script)
+
+    def setup(self, c):
+        S.pin_environment(c)
+        a = c.a
+        a.iso, a.contents = build_udf(c, self.script)
+        a.img = S.written(c, a.iso)
+        a.re = c.new(S.PC)
+        a.fp = c.file(a.img)
+        return Call([a.fp], self_obj=a.re)
+
+    def post(self, c, a, out):
+        kw, script = UDF_SCRIPTS[self.script]
+        model, content_m = udf_model(script)
+        cl = {}
+        ok, again = S.try_call(c, lambda: S.written(c, a.re))
+        cl['remastering-succeeds'] = ok
+        if ok:
+            cl['remastering-is-a-fixpoint'] = Eq(again, a.img)
+        files = [(op[1], op[2]) for op in script if op[0] == 'file' and op[2] in model]
+        extra = c.bytes('extra_content', 10)
+        edit_ok = True
+        if files:
+            good, _ = S.try_call(c, lambda: S.call(c, a.re, 'rm_file', iso_path=files[0][0], udf_path=files[0][1]))
+            edit_ok = edit_ok and good
+            model.pop(files[0][1])
+        k = dict(iso_path='/NEWFILE.;1', udf_path='/newfile')
+        if 'rock_ridge' in kw:
+            k['rr_name'] = 'newfile'
+        good, _ = S.try_call(c, lambda: S.call(c, a.re, 'add_fp', S.data_file(c, extra), 10, **k))
+        edit_ok = edit_ok and good
+        model['/newfile'] = ('file', 'extra')
+        cl['edits-on-the-opened-image-are-accepted'] = edit_ok
+        if not edit_ok:
+            return cl
+        ok2, img2 = S.try_call(c, lambda: S.written(c, a.re))
+        cl['edited-image-can-be-written'] = ok2
+        if not ok2:
+            return cl
+        img2 = list(V.items_of(img2))
+        try:
+            u = UR.read_udf(img2)
+        except (R.Bad, KeyError, IndexError) as e:
+            a.problems = ['udf reader gave up: %r' % (e,)]
+            cl['independent-udf-reader-reaches-the-file-set'] = False
+            return cl
+        cl['independent-udf-reader-reaches-the-file-set'] = True
+        cl['udf-tree-is-old-content-plus-exactly-the-edits'] = {p: v['kind'] for p, v in u.files.items()} == {p: v[0] for p, v in model.items()}
+        keep = []
+        for p, v in model.items():
+            f = u.files.get(p)
+            if f is None or v[0] != 'file':
+                continue
+            keep.append(Eq(V.mk_bytes(f['data']), extra if v[1] == 'extra' else a.contents[v[1]]))
+        cl['untouched-files-keep-their-bytes'] = And(*keep) if keep else True
+        cl['every-descriptor-tag-and-length-is-valid'] = not u.im.problems
+        try:
+            im2, res = R.read_iso(img2)
+            cl['iso9660-side-structurally-valid'] = not im2.problems
+            cl['image-length-is-the-declared-size'] = len(img2) == res['pvd']['space_size'] * 2048
+            if im2.problems:
+                a.problems = im2.problems
+        except (R.Bad, KeyError):
+            cl['iso9660-side-structurally-valid'] = False
+        if u.im.problems:
+            a.problems = u.im.problems
         return cl
 
     def observe(self, c, a, out):
